@@ -4,20 +4,54 @@ RTP/RTCP datagram on the wire (`send`, `send_rtp`, `send_rtcp`, `send_rtcp_sync`
 fast path `try_bridge_rewrite_rtp`) and the receive path (`PacketReceiver::receive`), as a machine
 over a *system* of transports (a source and its bridge targets).  Core Lean only.
 
-Cryptography is symbolic: a datagram on the wire is described by *how it was produced*
-(`Form.prot owner key` = output of `owner`'s `SrtpSession::protect_*` under key set `key`,
-`Form.clear` = plain marshal / caller bytes) and an inbound datagram by what the session's
-`unprotect_*` answers (`Wire.prot key ok`: protected under key set `key`, `ok` = tag valid and not a
-replay).  Whether `protect`/`unprotect` themselves are right is C04/C05; here the question is which
-branch every path takes.  Each path has its OWN copy of the gate, as in the code.
+SRTP itself is a PARAMETER of the model (`Suite`): an abstract session state with `protect_*` /
+`unprotect_*` step functions that may fail, the plain parsers, and a security notion
+`Authentic k w` ("`w` was produced by `protect` under key set `k`") together with LAW FIELDS —
+in particular `unprotect*_sound`: a session only accepts authentic datagrams.  That law is the
+named cryptographic hypothesis of every inbound theorem of C14; for rustrtc's `SrtpContext` it is
+the subject of C05 (`forged_rejected`) and C04.  The gate model never looks inside a datagram.
+
+Each path has its OWN copy of the gate, as in the code, including the arm taken when `protect_*`
+returns an error.
 
 Atomicity: each gate evaluation reads the session slot once (`self.srtp_session.lock()` is taken
-once per call, `srtp_required` is immutable), so interleavings of tasks are sequences of `step`s.
+once per call), `srtp_required` is immutable, and the slot is monotone (`start_srtp` only ever
+stores `Some`; nothing clears it) — so interleavings of tasks are sequences of `step`s.
 -/
 namespace RtcModel.Gate
 
 abbrev Tid := Nat
 abbrev KeyId := Nat
+
+/-- SRTP as the gate sees it (`SrtpSession` of `src/srtp.rs`) -/
+structure Suite where
+  /-- datagrams as they arrive from the network -/
+  W : Type
+  /-- `SrtpSession` state (per-SSRC contexts, ROC, replay windows, SRTCP index …) -/
+  Sess : Type
+  /-- `SrtpSession::new` under key set `k` -/
+  fresh : KeyId → Sess
+  keyOf : Sess → KeyId
+  /-- `protect_rtp`: new state, and whether it returned `Ok` -/
+  protectRtp : Sess → Sess × Bool
+  protectRtcp : Sess → Sess × Bool
+  /-- `SrtpPacket::parse` + `unprotect_rtp`: new state, and whether it returned `Ok` -/
+  unprotectRtp : Sess → W → Sess × Bool
+  unprotectRtcp : Sess → W → Sess × Bool
+  /-- `RtpPacket::parse_bytes` / `parse_rtcp_packets` succeed on the raw bytes -/
+  parsesClearRtp : W → Bool
+  parsesClearRtcp : W → Bool
+  /-- security notion: `w` is the output of `protect_rtp` / `protect_rtcp` under key set `k` -/
+  AuthenticRtp : KeyId → W → Prop
+  AuthenticRtcp : KeyId → W → Prop
+  keyOf_fresh : ∀ k, keyOf (fresh k) = k
+  protectRtp_key : ∀ s, keyOf (protectRtp s).1 = keyOf s
+  protectRtcp_key : ∀ s, keyOf (protectRtcp s).1 = keyOf s
+  unprotectRtp_key : ∀ s w, keyOf (unprotectRtp s w).1 = keyOf s
+  unprotectRtcp_key : ∀ s w, keyOf (unprotectRtcp s w).1 = keyOf s
+  /-- NAMED HYPOTHESIS (MAC unforgeability, C05): what `unprotect_rtp` accepts is authentic -/
+  unprotectRtp_sound : ∀ s w, (unprotectRtp s w).2 = true → AuthenticRtp (keyOf s) w
+  unprotectRtcp_sound : ∀ s w, (unprotectRtcp s w).2 = true → AuthenticRtcp (keyOf s) w
 
 inductive Media where
   | rtp | rtcp
@@ -25,22 +59,13 @@ deriving DecidableEq, Repr
 
 /-- how an emitted datagram was produced -/
 inductive Form where
-  | prot (owner : Tid) (key : KeyId)
-  | clear
-deriving DecidableEq, Repr
-
-/-- an inbound datagram as the gate sees it -/
-inductive Wire where
-  | clear                              -- well-formed RTP / RTCP, not SRTP-protected
-  /-- SRTP/SRTCP under key set `key`; `ok`: tag valid and not a replay; `asClear`: the same bytes
-  also pass the plain (non-SRTP) RTP / RTCP parser — what a keyless non-mandatory transport does -/
-  | prot (key : KeyId) (ok : Bool) (asClear : Bool)
-  | garbage                            -- does not parse as RTP / RTCP at all
+  | prot (owner : Tid) (key : KeyId)   -- `Ok` output of `owner`'s session, keyed `key`
+  | clear                              -- plain marshal / the caller's bytes
 deriving DecidableEq, Repr
 
 /-- provenance of a plaintext packet inside the transport -/
 inductive Prov where
-  | auth (key : KeyId)                 -- came out of a successful `unprotect_*` under `key`
+  | auth (key : KeyId)                 -- came out of a successful `unprotect_*` of a session keyed `key`
   | unauth                             -- parsed from the wire without authentication
 deriving DecidableEq, Repr
 
@@ -67,160 +92,187 @@ structure Bridge where
   video  : Option Tid
 deriving DecidableEq, Repr
 
+section
+variable (S : Suite)
+
 /-- one `RtpTransport` -/
 structure Tr where
   required     : Bool               -- `srtp_required` (immutable after `new`)
-  keys         : Option KeyId       -- `srtp_session` slot
+  sess         : Option S.Sess      -- `srtp_session` slot
   bridge       : Option Bridge      -- `rewrite_bridge` / `has_bridge`
   listener     : Bool               -- a demux listener that matches the packet exists
   rtcpListener : Bool
   observer     : Bool               -- `has_observers`
-deriving DecidableEq, Repr
 
-abbrev St := Tid → Tr
+abbrev St := Tid → Tr S
 
-def St.set (s : St) (t : Tid) (x : Tr) : St := fun i => if i = t then x else s i
+variable {S}
 
-/-! ### outbound gates — one copy per code path -/
+def St.set (s : St S) (t : Tid) (x : Tr S) : St S := fun i => if i = t then x else s i
+
+def Tr.key (x : Tr S) : Option KeyId := x.sess.map S.keyOf
+
+/-! ### outbound gates — one copy per code path.  Each returns the transport's new session slot
+and the events. -/
 
 /-- `send(buf)`: `let Some(session) = session else { if required { Err } else raw send }`;
-with a session the bytes must parse before they are protected. -/
-def sendRawGate (t : Tid) (x : Tr) (parses : Bool) : List Ev :=
-  match x.keys with
-  | none => if x.required then [.ret false] else [.emit t .rtp .clear .loc, .ret true]
-  | some k => if parses then [.emit t .rtp (.prot t k) .loc, .ret true] else [.ret false]
+with a session the bytes must parse before they are protected (`?` on both). -/
+def sendRawGate (t : Tid) (x : Tr S) (parses : Bool) : Option S.Sess × List Ev :=
+  match x.sess with
+  | none => (none, if x.required then [.ret false] else [.emit t .rtp .clear .loc, .ret true])
+  | some se =>
+    if parses then
+      (some (S.protectRtp se).1,
+       if (S.protectRtp se).2 then [.emit t .rtp (.prot t (S.keyOf se)) .loc, .ret true] else [.ret false])
+    else (some se, [.ret false])
 
-/-- `send_rtp(packet)`: `match session { Some → protect, None → if required { Err } else marshal }` -/
-def sendRtpGate (t : Tid) (x : Tr) : List Ev :=
-  match x.keys with
-  | some k => [.emit t .rtp (.prot t k) .loc, .ret true]
-  | none => if x.required then [.ret false] else [.emit t .rtp .clear .loc, .ret true]
+/-- `send_rtp(packet)`: `match session { Some → protect?, None → if required { Err } else marshal }` -/
+def sendRtpGate (t : Tid) (x : Tr S) : Option S.Sess × List Ev :=
+  match x.sess with
+  | some se =>
+    (some (S.protectRtp se).1,
+     if (S.protectRtp se).2 then [.emit t .rtp (.prot t (S.keyOf se)) .loc, .ret true] else [.ret false])
+  | none => (none, if x.required then [.ret false] else [.emit t .rtp .clear .loc, .ret true])
 
 /-- `send_rtcp(packets)` -/
-def sendRtcpGate (t : Tid) (x : Tr) : List Ev :=
-  match x.keys with
-  | some k => [.emit t .rtcp (.prot t k) .loc, .ret true]
-  | none => if x.required then [.ret false] else [.emit t .rtcp .clear .loc, .ret true]
+def sendRtcpGate (t : Tid) (x : Tr S) : Option S.Sess × List Ev :=
+  match x.sess with
+  | some se =>
+    (some (S.protectRtcp se).1,
+     if (S.protectRtcp se).2 then [.emit t .rtcp (.prot t (S.keyOf se)) .loc, .ret true] else [.ret false])
+  | none => (none, if x.required then [.ret false] else [.emit t .rtcp .clear .loc, .ret true])
 
-/-- `send_rtcp_sync(packets)` (close-time BYE): no return value -/
-def syncByeGate (t : Tid) (x : Tr) : List Ev :=
-  match x.keys with
-  | some k => [.emit t .rtcp (.prot t k) .loc]
-  | none => if x.required then [] else [.emit t .rtcp .clear .loc]
+/-- `send_rtcp_sync(packets)` (close-time BYE): no return value; a protect error returns silently -/
+def syncByeGate (t : Tid) (x : Tr S) : Option S.Sess × List Ev :=
+  match x.sess with
+  | some se =>
+    (some (S.protectRtcp se).1, if (S.protectRtcp se).2 then [.emit t .rtcp (.prot t (S.keyOf se)) .loc] else [])
+  | none => (none, if x.required then [] else [.emit t .rtcp .clear .loc])
 
-/-- the bridge fast path's gate, evaluated on the TARGET transport `y` (id `tgt`) -/
-def bridgeGate (tgt : Tid) (y : Tr) (origin : Tid) (p : Prov) : List Ev :=
-  match y.keys with
-  | some k => [.emit tgt .rtp (.prot tgt k) (.relay origin p)]
-  | none => if y.required then [] else [.emit tgt .rtp .clear (.relay origin p)]
+/-- the bridge fast path's gate, evaluated on the TARGET transport `y` (id `tgt`):
+session → protect or drop on error; no session → `required` ? drop : plain marshal -/
+def bridgeGate (tgt : Tid) (y : Tr S) (origin : Tid) (p : Prov) : Option S.Sess × List Ev :=
+  match y.sess with
+  | some se =>
+    (some (S.protectRtp se).1,
+     if (S.protectRtp se).2 then [.emit tgt .rtp (.prot tgt (S.keyOf se)) (.relay origin p)] else [])
+  | none => (none, if y.required then [] else [.emit tgt .rtp .clear (.relay origin p)])
 
 /-! ### inbound gates -/
 
 /-- RTP arm of `receive`: session → `SrtpPacket::parse` + `unprotect_rtp`; no session →
 `required` ? drop : `RtpPacket::parse_bytes` -/
-def recvRtpGate (x : Tr) (w : Wire) : Option Prov :=
-  match x.keys with
-  | some k =>
-    match w with
-    | .prot k' ok _ => if k' = k ∧ ok = true then some (.auth k) else none
-    | .clear => none
-    | .garbage => none
+def recvRtpGate (x : Tr S) (w : S.W) : Option S.Sess × Option Prov :=
+  match x.sess with
+  | some se =>
+    (some (S.unprotectRtp se w).1, if (S.unprotectRtp se w).2 then some (.auth (S.keyOf se)) else none)
   | none =>
-    if x.required then none
-    else match w with
-      | .garbage => none
-      | .clear => some .unauth
-      | .prot _ _ asClear => if asClear then some .unauth else none
+    (none, if x.required then none else if S.parsesClearRtp w then some .unauth else none)
 
 /-- RTCP arm of `receive` -/
-def recvRtcpGate (x : Tr) (w : Wire) : Option Prov :=
-  match x.keys with
-  | some k =>
-    match w with
-    | .prot k' ok _ => if k' = k ∧ ok = true then some (.auth k) else none
-    | .clear => none
-    | .garbage => none
+def recvRtcpGate (x : Tr S) (w : S.W) : Option S.Sess × Option Prov :=
+  match x.sess with
+  | some se =>
+    (some (S.unprotectRtcp se w).1, if (S.unprotectRtcp se w).2 then some (.auth (S.keyOf se)) else none)
   | none =>
-    if x.required then none
-    else match w with
-      | .garbage => none
-      | .clear => some .unauth
-      | .prot _ _ asClear => if asClear then some .unauth else none
+    (none, if x.required then none else if S.parsesClearRtcp w then some .unauth else none)
 
 def Bridge.pick (b : Bridge) (video : Bool) : Tid :=
   match video, b.video with
   | true, some v => v
   | _, _ => b.target
 
-/-- what happens to an accepted inbound RTP packet: ingress observers, then the bridge fast path
-(early return) or the demux listener -/
-def afterAccept (s : St) (t : Tid) (p : Prov) (video : Bool) : List Ev :=
-  let x := s t
-  (if x.observer then [Ev.deliver t .ingressObs p] else []) ++
-  match x.bridge with
-  | some b =>
-    let tgt := b.pick video
-    let y := s tgt
-    (if y.observer then [Ev.deliver t (.relayObs tgt) p] else []) ++ bridgeGate tgt y t p
-  | none => if x.listener then [.deliver t .listener p] else []
+/-- `fire_ingress` -/
+def obsEv (x : Tr S) (t : Tid) (p : Prov) : List Ev :=
+  if x.observer then [Ev.deliver t .ingressObs p] else []
 
-def recvRtp (s : St) (t : Tid) (w : Wire) (video : Bool) : List Ev :=
-  match recvRtpGate (s t) w with
-  | none => []
-  | some p => afterAccept s t p video
+/-- the bridge fast path towards target `tgt`: the target's egress observers, then the target's gate;
+the target's session state advances -/
+def relayTo (s : St S) (t : Tid) (p : Prov) (tgt : Tid) : St S × List Ev :=
+  (s.set tgt { s tgt with sess := (bridgeGate tgt (s tgt) t p).1 },
+   obsEv (s t) t p ++ (if (s tgt).observer then [Ev.deliver t (.relayObs tgt) p] else []) ++
+     (bridgeGate tgt (s tgt) t p).2)
 
-def recvRtcp (s : St) (t : Tid) (w : Wire) : List Ev :=
-  match recvRtcpGate (s t) w with
-  | none => []
-  | some p => if (s t).rtcpListener then [.deliver t .rtcpListener p] else []
+/-- what happens to an accepted inbound RTP packet of transport `t` (state `s` already has `t`'s
+updated session): ingress observers, then the bridge fast path (early return) or the demux listener -/
+def afterAccept (s : St S) (t : Tid) (p : Prov) (video : Bool) : St S × List Ev :=
+  match (s t).bridge with
+  | some b => relayTo s t p (b.pick video)
+  | none => (s, obsEv (s t) t p ++ if (s t).listener then [.deliver t .listener p] else [])
 
-inductive Op where
-  | installKeys (t : Tid) (k : KeyId)          -- `start_srtp`
+/-- `t`'s slot after its inbound gate ran -/
+def withSess (s : St S) (t : Tid) (g : Option S.Sess) : St S := s.set t { s t with sess := g }
+
+def recvRtp (s : St S) (t : Tid) (w : S.W) (video : Bool) : St S × List Ev :=
+  match (recvRtpGate (s t) w).2 with
+  | none => (withSess s t (recvRtpGate (s t) w).1, [])
+  | some p => afterAccept (withSess s t (recvRtpGate (s t) w).1) t p video
+
+def recvRtcp (s : St S) (t : Tid) (w : S.W) : St S × List Ev :=
+  match (recvRtcpGate (s t) w).2 with
+  | none => (withSess s t (recvRtcpGate (s t) w).1, [])
+  | some p => (withSess s t (recvRtcpGate (s t) w).1,
+               if (s t).rtcpListener then [.deliver t .rtcpListener p] else [])
+
+end
+
+inductive Op (S : Suite) where
+  | installKeys (t : Tid) (k : KeyId)          -- `start_srtp(SrtpSession::new(..k..))`
   | sendRtp (t : Tid)
   | sendRaw (t : Tid) (parses : Bool)
   | sendRtcp (t : Tid)
   | syncBye (t : Tid)
-  | recvRtp (t : Tid) (w : Wire) (video : Bool)
-  | recvRtcp (t : Tid) (w : Wire)
+  | recvRtp (t : Tid) (w : S.W) (video : Bool)
+  | recvRtcp (t : Tid) (w : S.W)
   | setBridge (t : Tid) (b : Bridge)
   | clearBridge (t : Tid)
   | close (t : Tid)                            -- `clear_listeners` then `send_rtcp_sync(BYE)`
-deriving DecidableEq, Repr
+  /-- (re-)registration of listeners / RTCP listener / observers at any moment -/
+  | setFlags (t : Tid) (listener rtcpListener observer : Bool)
 
-def step (s : St) : Op → St × List Ev
-  | .installKeys t k => (s.set t { s t with keys := some k }, [])
-  | .sendRtp t => (s, sendRtpGate t (s t))
-  | .sendRaw t parses => (s, sendRawGate t (s t) parses)
-  | .sendRtcp t => (s, sendRtcpGate t (s t))
-  | .syncBye t => (s, syncByeGate t (s t))
-  | .recvRtp t w v => (s, recvRtp s t w v)
-  | .recvRtcp t w => (s, recvRtcp s t w)
+variable {S : Suite}
+
+/-- `clear_listeners` -/
+def closed (x : Tr S) : Tr S := { x with listener := false, rtcpListener := false }
+
+/-- apply an own-slot gate result -/
+def own (s : St S) (t : Tid) (g : Option S.Sess × List Ev) : St S × List Ev :=
+  (withSess s t g.1, g.2)
+
+def step (s : St S) : Op S → St S × List Ev
+  | .installKeys t k => (s.set t { s t with sess := some (S.fresh k) }, [])
+  | .sendRtp t => own s t (sendRtpGate t (s t))
+  | .sendRaw t parses => own s t (sendRawGate t (s t) parses)
+  | .sendRtcp t => own s t (sendRtcpGate t (s t))
+  | .syncBye t => own s t (syncByeGate t (s t))
+  | .recvRtp t w v => recvRtp s t w v
+  | .recvRtcp t w => recvRtcp s t w
   | .setBridge t b => (s.set t { s t with bridge := some b }, [])
   | .clearBridge t => (s.set t { s t with bridge := none }, [])
-  | .close t =>
-    let x := { s t with listener := false, rtcpListener := false }
-    (s.set t x, syncByeGate t x)
+  | .close t => own (s.set t (closed (s t))) t (syncByeGate t (closed (s t)))
+  | .setFlags t l r o => (s.set t { s t with listener := l, rtcpListener := r, observer := o }, [])
 
 /-- state after a sequence of operations -/
-def run (s : St) : List Op → St
+def run (s : St S) : List (Op S) → St S
   | [] => s
   | o :: os => run (step s o).1 os
 
 /-- everything emitted / delivered during a sequence of operations, in order -/
-def trace (s : St) : List Op → List Ev
+def trace (s : St S) : List (Op S) → List Ev
   | [] => []
   | o :: os => (step s o).2 ++ trace (step s o).1 os
 
 /-- independent bookkeeping for "the session keys": the last key set installed on `t` -/
-def lastInstalled (t : Tid) (init : Option KeyId) : List Op → Option KeyId
+def lastInstalled (t : Tid) (init : Option KeyId) : List (Op S) → Option KeyId
   | [] => init
   | .installKeys t' k :: os => lastInstalled t (if t' = t then some k else init) os
   | _ :: os => lastInstalled t init os
 
 /-! ### which transport object a media section uses, per transport mode
 (`src/peer_connection.rs`: primary transport `srtp_required = transport_mode != Rtp`; extra
-per-section transports are created with `srtp_required = false` and only by
-`configure_rtp_media_transports_from_remote`, which runs only when `transport_mode == Rtp`). -/
+per-section transports are created with `srtp_required = false`, by `create_offer` and by
+`configure_rtp_media_transports_from_remote`, both only when `transport_mode == Rtp`).
+This table is compared with the transports real `PeerConnection`s create (`mode` stream). -/
 inductive Mode where
   | webrtc | srtp | rtp
 deriving DecidableEq, Repr
@@ -232,5 +284,57 @@ def extraRequired : Bool := false
 /-- `srtp_required` flags of every transport a section can be attached to in mode `m` -/
 def sectionTransportFlags (m : Mode) : List Bool :=
   primaryRequired m :: (if extraTransportsCreated m then [extraRequired] else [])
+
+/-! ### the symbolic suite the driver runs (and the non-vacuity examples use) -/
+
+/-- an inbound datagram, symbolically -/
+inductive Wire where
+  | clear                              -- well-formed RTP / RTCP, not SRTP-protected
+  /-- SRTP/SRTCP under key set `key`; `ok`: tag valid and not a replay; `asClear`: the same bytes
+  also pass the plain (non-SRTP) RTP / RTCP parser — what a keyless non-mandatory transport does -/
+  | prot (key : KeyId) (ok : Bool) (asClear : Bool)
+  | garbage                            -- does not parse as RTP / RTCP at all
+deriving DecidableEq, Repr
+
+/-- a session whose key material is unusable (`SrtpContext::new` fails on every packet) is `broken` -/
+structure SymSess where
+  key    : KeyId
+  broken : Bool
+deriving DecidableEq, Repr
+
+def symAccepts (s : SymSess) : Wire → Bool
+  | .prot k ok _ => !s.broken && k == s.key && ok
+  | _ => false
+
+def symParses : Wire → Bool
+  | .clear => true
+  | .prot _ _ a => a
+  | .garbage => false
+
+/-- key ids `≡ 5 (mod 10)` stand for unusable key material -/
+def Sym : Suite where
+  W := Wire
+  Sess := SymSess
+  fresh k := { key := k, broken := k % 10 == 5 }
+  keyOf s := s.key
+  protectRtp s := (s, !s.broken)
+  protectRtcp s := (s, !s.broken)
+  unprotectRtp s w := (s, symAccepts s w)
+  unprotectRtcp s w := (s, symAccepts s w)
+  parsesClearRtp := symParses
+  parsesClearRtcp := symParses
+  AuthenticRtp k w := ∃ a, w = .prot k true a
+  AuthenticRtcp k w := ∃ a, w = .prot k true a
+  keyOf_fresh _ := rfl
+  protectRtp_key _ := rfl
+  protectRtcp_key _ := rfl
+  unprotectRtp_key _ _ := rfl
+  unprotectRtcp_key _ _ := rfl
+  unprotectRtp_sound s w h := by
+    cases w <;> simp [symAccepts] at h
+    obtain ⟨⟨_, rfl⟩, rfl⟩ := h; exact ⟨_, rfl⟩
+  unprotectRtcp_sound s w h := by
+    cases w <;> simp [symAccepts] at h
+    obtain ⟨⟨_, rfl⟩, rfl⟩ := h; exact ⟨_, rfl⟩
 
 end RtcModel.Gate
